@@ -83,7 +83,7 @@ func c04Units(t core.Tier) []c04Unit {
 			us = append(us, c04Unit{"chain4", i})
 		}
 	}
-	us = append(us, c04Unit{"text", 0}, c04Unit{"bool", 0}, c04Unit{"calls", 0})
+	us = append(us, c04Unit{"text", 0}, c04Unit{"bool", 0}, c04Unit{"calls", 0}, c04Unit{"chain4q", 0})
 	return us
 }
 
@@ -147,6 +147,22 @@ func (c04) RunUnit(t core.Tier, u int, r *core.Reporter) {
 				run(ref.In(e1.Clone(), ref.N(2), ref.Bin("+", ref.N(1), ref.N(2)), ref.Fl(1.5)), true)
 			}
 		}
+	case "chain4q":
+		// quick tier: 4-element + and * chains over a reduced leaf pool
+		Lq := []*ref.Expr{ref.N(2), ref.N(3), ref.Fl(0.5), ref.Call("int", ref.Value()), ref.Call("float", ref.Value())}
+		for _, a := range Lq {
+			for _, b := range Lq {
+				for _, c := range Lq {
+					for _, d := range Lq {
+						for _, op := range []string{"+", "*"} {
+							run(bin(op, bin(op, bin(op, a, b), c), d), false)
+							run(bin(op, bin(op, a, b), bin(op, c, d)), false)
+							run(bin(op, bin(op, a, bin(op, b, c)), d), false)
+						}
+					}
+				}
+			}
+		}
 	case "chain4":
 		a := L[un.i]
 		for _, b := range L {
@@ -162,6 +178,21 @@ func (c04) RunUnit(t core.Tier, u int, r *core.Reporter) {
 		}
 	case "text":
 		T := c04TextLeaves()
+		// 4-element concatenation chains in every association (the optimiser
+		// groups trailing constants pairwise, then group-wise)
+		T4 := []*ref.Expr{ref.Key(), ref.Value(), ref.S("a"), ref.S("b"), ref.S("c"), ref.Call("upper", ref.S("d"))}
+		for _, a := range T4 {
+			for _, b := range T4 {
+				for _, c := range T4 {
+					for _, d := range T4 {
+						run(bin("+", bin("+", bin("+", a, b), c), d), false)
+						run(bin("+", bin("+", a, b), bin("+", c, d)), false)
+						run(bin("+", bin("+", a, bin("+", b, c)), d), false)
+						run(bin("+", a, bin("+", b, bin("+", c, d))), false)
+					}
+				}
+			}
+		}
 		for _, a := range T {
 			run(a, false)
 			for _, b := range T {
